@@ -56,6 +56,17 @@ VARIANTS = [
     V("c13_bernoulli_support", "M", "liesel/model/goose.py", "finite_discrete_gibbs_kernel",
       *replace_expr("jnp.array([0, 1], dtype=dist.dtype)", "jnp.array([1], dtype=dist.dtype)"),
       note="Bernoulli support misses 0", expect_rule="C13.R2"),
+    V("c13_pipeline_late_binding", "M", D, "dist_reg_mcmc",
+      *replace_stmt("tau2_kernel = tau2_gibbs_kernel(group)",
+                    "tau2_kernel = GibbsKernel([position_key], lambda key, ms: "
+                    "tau2_gibbs_kernel(group)._transition_fn(key, ms))"),
+      note="every smoothing-variance kernel reads the LAST group when it runs",
+      expect_rule="C13.R4"),
+    V("c13_pipeline_other_factory", "M", D, "dist_reg_mcmc",
+      *replace_stmt("tau2_kernel = tau2_gibbs_kernel(group)",
+                    "tau2_kernel = GibbsKernel([position_key], tau2_jitter_fn)"),
+      note="the pipeline registers something else than the verified factory's kernel",
+      expect_rule="C13.R4"),
     # ---- twins
     V("c13_t_outcomes_array", "T", "liesel/model/goose.py", "finite_discrete_gibbs_kernel",
       *replace_stmt("outcomes = jnp.asarray(outcomes)", "outcomes = jnp.array(outcomes)"),
@@ -65,5 +76,11 @@ VARIANTS = [
       note="intermediate names, rank / 2"),
     V("c13_t_full_update", "T", G, f"{F}.transition_fn.conditional_log_prob_fn",
       *replace_stmt("model.update('_model_log_prob')", "model.update()"), note="full update"),
+]
+VARIANTS += [
+    V("c13_t_pipeline_temp", "T", D, "dist_reg_mcmc",
+      *replace_stmt("tau2_kernel = tau2_gibbs_kernel(group)",
+                    "the_group = group\ntau2_kernel = tau2_gibbs_kernel(the_group)"),
+      note="temporary"),
 ]
 VARIANTS = [v for v in VARIANTS if v.vid != "c13_group_key"]
